@@ -195,6 +195,21 @@ func init() {
 				}
 			}
 		}
+		// a name bound to NIL in an inner scope (a nil element as the loop variable, a nil argument, let x = nil)
+		// while an ENCLOSING scope holds a truthy value under the same name: inside, the name is falsy at every site
+		for _, t := range [][2]string{
+			{`<% let v = "outer" %><%= for (v) in [1, nil, 2] { %><%= if (v) { %>T<% } else { %>N<% } %><%= !v %>,<% } %>|<%= if (v) { %>T<% } %>`, "Tfalse,Ntrue,Tfalse,|T"},
+			{`<% let x = "o" %><% let f = fn(x) { if (x) { return "T" } return "N" } %><%= f(1) %><%= f(nil) %><%= f(x) %>`, "TNT"},
+			{`<% let x = true %><%= for (i) in [1, 2] { %><% let x = nil %><%= if (x) { %>T<% } else { %>F<% } %><%= x || false %><%= x && true %><% } %>|<%= x %>`, "FfalsefalseFfalsefalse|true"},
+			{`<% let w = "outer" %><%= partial("nw", {w: nil}) %>|<%= blkctx({w: nil}) { %><%= if (w) { %>T<% } else { %>N<% } %><%= !!w %><% } %>`, "Nfalse|Nfalse"},
+		} {
+			c := RCase{Tmpl: t[0], Binds: []Bind{{"blkctx", vGo(105)}}, Parts: map[string]string{"nw": `<%= if (w) { %>T<% } else { %>N<% } %><%= !!w %>`}}
+			o := e.addRenderCase("nil-shadows-outer", c)
+			e.Distinct(t[0])
+			if o.Class != "OK" || o.Out != t[1] {
+				e.Violate("c07-truthiness", fmt.Sprintf("%s: rendered %q (%s %s), want %q", t[0], o.Out, o.Class, firstLine(o.Msg), t[1]), map[string]interface{}{"case": c, "observed": o})
+			}
+		}
 		// a template function that FAILS on an unknown identifier, called where that is tolerated (a condition,
 		// an operand of ! || &&): the chain goes on in the CALLER's scope - the function's parameters do not
 		// stay bound and do not change what later conditions see
